@@ -25,6 +25,8 @@ func init() {
 	p.Exec["go.prove2"] = goProve2
 	p.Exec["mk.prune2"] = execPrune2
 	p.Exec["go.prune2"] = goPrune2
+	p.Exec["mk.prune.il"] = execPruneIL
+	p.Exec["go.prune.il"] = goPruneIL
 }
 
 type oddKind struct {
@@ -303,6 +305,79 @@ func goPrune2(a []string) string {
 	return "ok"
 }
 
+// runPruneIL: ONE prover, TWO LIVE cursors: both are created first, their Prune calls are interleaved, then the
+// proofs are created in the given order ("ab" or "ba"). Returns the proof of cursor A and of cursor B.
+func runPruneIL(t []h.Row, pa, pb [][]int, order string) (a, b []byte, err error) {
+	cs := h.BuildCells(t)
+	prover, err := boc.NewMerkleProver(cs[0])
+	if err != nil {
+		return nil, nil, err
+	}
+	ca, cb := prover.Cursor(), prover.Cursor()
+	walk := func(c *boc.Cursor, p []int) {
+		for _, i := range p {
+			c = c.Ref(i)
+		}
+		c.Prune()
+	}
+	for k := 0; k < len(pa) || k < len(pb); k++ {
+		if k < len(pa) {
+			walk(ca, pa[k])
+		}
+		if k < len(pb) {
+			walk(cb, pb[k])
+		}
+	}
+	if order == "ab" {
+		if a, err = prover.CreateProof(ca); err != nil {
+			return nil, nil, err
+		}
+		b, err = prover.CreateProof(cb)
+	} else {
+		if b, err = prover.CreateProof(cb); err != nil {
+			return nil, nil, err
+		}
+		a, err = prover.CreateProof(ca)
+	}
+	return a, b, err
+}
+
+// mk.prune.il <table> <pathsA> <pathsB> <ab|ba> -> "ok <proof A> | <proof B>" (canonical tables)
+func execPruneIL(a []string) string {
+	pa, pb, err := runPruneIL(h.ParseTable(a[0]), parsePaths(a[1]), parsePaths(a[2]), a[3])
+	if err != nil {
+		return "err"
+	}
+	sa, _, e1 := canonOfBoc(pa)
+	sb, _, e2 := canonOfBoc(pb)
+	if e1 != nil || e2 != nil {
+		return "FAIL proof-does-not-parse"
+	}
+	return "ok " + sa + " | " + sb
+}
+
+// go.prune.il: each of the two proofs equals the proof a fresh prover makes for that cursor's own path set
+func goPruneIL(a []string) string {
+	t := h.ParseTable(a[0])
+	p1, p2 := parsePaths(a[1]), parsePaths(a[2])
+	pa, pb, err := runPruneIL(t, p1, p2, a[3])
+	if err != nil {
+		return "FAIL create-proof-error"
+	}
+	fa, e1 := runPrune(t, p1)
+	fb, e2 := runPrune(t, p2)
+	if e1 != nil || e2 != nil {
+		return "FAIL create-proof-error"
+	}
+	if string(pa) != string(fa) {
+		return "FAIL proof-of-cursor-A-differs-from-a-fresh-prover's (two live cursors, order " + a[3] + ")"
+	}
+	if string(pb) != string(fb) {
+		return "FAIL proof-of-cursor-B-differs-from-a-fresh-prover's (two live cursors, order " + a[3] + ")"
+	}
+	return "ok"
+}
+
 // ----------------------------------------------------------------------------------------------- generator part
 
 func genC18More(g *h.G) {
@@ -401,6 +476,10 @@ func genC18More(g *h.G) {
 		g.NonTrivial("2:" + ts + pathsString(p1) + pathsString(p2))
 		g.Emit("mk.prune2", ts, pathsString(p1), pathsString(p2))
 		g.Emit("go.prune2", ts, pathsString(p1), pathsString(p2))
+		order := []string{"ab", "ba"}[i%2]
+		g.Count("two_live_cursors_interleaved_" + order)
+		g.Emit("mk.prune.il", ts, pathsString(p1), pathsString(p2), order)
+		g.Emit("go.prune.il", ts, pathsString(p1), pathsString(p2), order)
 	}
 }
 
